@@ -64,8 +64,17 @@ class Guards:
             t = b["term"]
             if t["k"] != "switch":
                 continue
-            e = strip_bb(self.R.op(t["discr"]))
+            raw = self.R.op(t["discr"])
+            e = strip_bb(raw)
             vals = [v for v, _ in t["targets"]]
+            # history facts ('hist', 'ok'|'err', call bb): never killed — "this call site returned Ok/Err"
+            hist_bb = None
+            if raw[0] == "discr":
+                x = raw[1]
+                while x[0] == "call" and x[1] in TRY_BRANCH and x[3]:
+                    x = x[3][0]
+                if x[0] == "call":
+                    hist_bb = x[4]
             tg = {}
             for v, tb in t["targets"]:
                 tg.setdefault(tb, []).append(v)
@@ -76,9 +85,13 @@ class Guards:
                 if len(vs) == 1:
                     for f in self._facts_for(e, vs[0], False, vals):
                         self.edge_facts.setdefault((bi, tb), set()).add(f)
+                    if hist_bb is not None and vs[0] in (0, 1):
+                        self.edge_facts.setdefault((bi, tb), set()).add(("hist", "ok" if vs[0] == 0 else "err", hist_bb))
             if ob not in tg:
                 for f in self._facts_for(e, None, True, vals):
                     self.edge_facts.setdefault((bi, ob), set()).add(f)
+                if hist_bb is not None and vals in ([0], [1]):
+                    self.edge_facts.setdefault((bi, ob), set()).add(("hist", "err" if vals == [0] else "ok", hist_bb))
 
     def _facts_for(self, e, v, otherwise, vals):
         out = []
@@ -156,6 +169,8 @@ class Guards:
         return ext, locs
 
     def _killed(self, fact, ext, locs):
+        if fact[0] == "hist":
+            return False
         for root, proj in expr_paths(fact):
             ch = fields_only(proj)
             for (r2, ch2) in ext:
